@@ -2,7 +2,7 @@
    for every statement the implementation's status (Ok / error-or-panic) and what
    SELECT * FROM t showed afterwards for each table of the universe.  Definitions only. *)
 From Coq Require Import ZArith List Bool.
-From TV Require Import Model.DdlSpec Model.AlterImpl.
+From TV Require Export Model.DdlSpec Model.AlterImpl.
 Import ListNotations.
 Open Scope Z_scope.
 
@@ -69,8 +69,18 @@ Fixpoint all2 {A B} (f : A -> B -> bool) (a : list A) (b : list B) : bool :=
 Definition step_eq (f : tobs -> tobs -> bool) (m o : bool * list tobs) : bool :=
   Bool.eqb (fst m) (fst o) && all2 f (snd m) (snd o).
 
-Definition model_agrees (c : case) : bool :=
-  all2 (step_eq tobs_agree) (i_run i_empty (stmts_of c)) (seen_of c).
+(* From a statement of class 11 on (DML / CREATE INDEX over records shorter than the catalogue's
+   column list, read by decoders that do not know them) the model predicts nothing: the
+   comparison stops there. *)
+Fixpoint agree_run (s : istate) (l : list (stmt * bool * list tobs)) : bool :=
+  match l with
+  | [] => true
+  | (st, ok, obs) :: r =>
+      if step_class s st =? 11 then true
+      else let '(s', mok) := i_step s st in
+           Bool.eqb mok ok && all2 tobs_agree (i_obs s') obs && agree_run s' r
+  end.
+Definition model_agrees (c : case) : bool := match c with Hist l => agree_run i_empty l end.
 Definition spec_ok (c : case) : bool :=
   all2 (step_eq tobs_spec) (s_run s_empty (stmts_of c)) (seen_of c).
 Definition known_class (c : case) : Z := hist_class i_empty (stmts_of c).
